@@ -68,6 +68,11 @@ CLAIMED = {
                      "finalisation case split equals an independent padding rule). MCHashReal's labelled graph at the real block sizes is replayed edge by edge on all 15 hash types, and these plus random histories "
                      "are validated by TLC with TraceHashBuf.tla, which tracks every instance's ghost message through update/clone/reset/finalize_reset.",
                 note="Trusted: TLC; abstract compression in the models; one-shot digests tied to the specifications by C04-C07; harness recording (canary episodes)."),
+    "C17": dict(level="model_checking", design="5/C17", technique="TLC model checking of counter logic at scaled word widths + TLC trace validation of fast-forwarded and really streamed boundary crossings against the hash specifications",
+                text="HashBuf.tla's CounterExact/FinalRight are checked by TLC for every length across several wraps of a scaled counter word. On the real code, hook H2 places the counter just below 2^32 / 2^64 bits, "
+                     "2^8 / 2^16 / 2^32 blocks, 2^32 bytes and the real increment code crosses the boundary; 512 MiB (BLAKE, JH) and 4 GiB (Skein) messages are really streamed with a checkpoint. "
+                     "TLC recomputes every digest from (chaining value, amount absorbed, remaining bytes) with Blake/JH/Groestl/Skein.tla.",
+                note="Trusted: TLC, the hash specifications, hook H2 accessors, soundness of fast-forward (compression conformance is per (h, m, t) triple)."),
 }
 
 PENDING = {  # properties whose checks are not built yet in this tree (kept current as checks land)
